@@ -15,6 +15,9 @@ CONSTANTS
   Routers,    \* subset of {"P", "L"}: the routers explored
   Ops,        \* operations enabled in this configuration
   MaxReq, MaxCode, MaxAT, MaxDev,   \* bounds on created objects
+  MaxSteps,   \* bound on the length of histories (decision-table style configurations use 1 or 2)
+  Seeded,     \* TRUE: Init already holds tokens of a completed code flow (keeps token-use / exchange models small)
+  Vary,       \* which parts of the provider configuration vary in Init: subset of {"post","refresh","caps","policy"}
   Narrow      \* TRUE: argument domains = the fitting request plus one-dimension deviations (MBT);
               \* FALSE: full products (exhaustive check)
 
@@ -199,6 +202,7 @@ DecideRefresh(a) ==
 
 DecideUserInfo(a) ==
   IF LiveAT(a.tok) THEN [NoOut EXCEPT !.class = "claims", !.status = 200, !.sub = toks[a.tok.id].sub]
+  ELSE IF cfg.router = "L" THEN Err(IF a.tok.form = "issued" /\ Has(toks, a.tok.id) THEN 403 ELSE 401, "access_denied")
   ELSE IF a.tok.form = "issued" /\ Has(toks, a.tok.id) THEN Err(403, "none") ELSE Page(401)
 
 DecideIntrospect(a) ==
@@ -233,12 +237,14 @@ DecideDeviceAuthorize(a) ==
     IF ra[1] # "ok" THEN TokErr(ra[1])
     ELSE IF a.caller \notin Clients THEN TokErr("server_error")
     ELSE IF ~granted THEN TokErr("unauthorized_client")
+    ELSE IF ~cfg.dev THEN TokErr("unsupported_grant_type")
     ELSE dev
   ELSE
     LET auth == TokenClientAuth(a.caller, a.cred) IN
     IF auth = "assertion_failed" THEN TokErr("server_error")
     ELSE IF auth # "ok" THEN TokErr(auth)
     ELSE IF ~granted THEN TokErr("unauthorized_client")
+    ELSE IF ~cfg.dev THEN TokErr("unsupported_grant_type")
     ELSE dev
 
 DeviceTokens(d) ==
@@ -261,7 +267,8 @@ DecidePoll(a) ==
   IF cfg.router = "P" THEN
     LET ra == ResourceClientAuthP(a.caller, a.cred)
         st == DeviceState(a) IN
-    IF ra[1] # "ok" THEN TokErr(ra[1])
+    IF ~cfg.dev THEN TokErr("unsupported_grant_type")
+    ELSE IF ra[1] # "ok" THEN TokErr(ra[1])
     ELSE IF st # "tokens" THEN TokErr(st)
     ELSE IF ra[2] # (Reg[a.caller].app = "web") THEN TokErr("invalid_client")
     ELSE DeviceTokens(devs[a.dc])
@@ -271,6 +278,7 @@ DecidePoll(a) ==
     IF auth = "assertion_failed" THEN TokErr("server_error")
     ELSE IF auth # "ok" THEN TokErr(auth)
     ELSE IF "device" \notin Reg[a.caller].grants THEN TokErr("unauthorized_client")
+    ELSE IF ~cfg.dev THEN TokErr("unsupported_grant_type")
     ELSE IF st # "tokens" THEN TokErr(st)
     ELSE DeviceTokens(devs[a.dc])
 
@@ -293,6 +301,67 @@ DecideEndSession(a) ==
   ELSE TokErr("invalid_request")
 
 -----------------------------------------------------------------------------
+(* token endpoint: client_credentials, jwt-bearer, token-exchange            *)
+
+IssuerURL == "https://op.example.test"
+
+DecideClientCreds(a) ==
+  LET secretOK == a.caller \in Clients /\ Reg[a.caller].auth \in {"basic", "post"}
+                    /\ a.cred.kind \in {"basic", "post"} /\ a.cred.secret = "right"
+      tokens == [NoOut EXCEPT !.class = "tokens", !.status = 200,
+                              !.at = NewAT(a.caller, a.caller, Range(a.scopes), {a.caller}), !.scope = a.scopes] IN
+  IF ~cfg.cc THEN TokErr("unsupported_grant_type")
+  ELSE IF ~secretOK THEN TokErr("invalid_client")
+  ELSE IF "cc" \notin Reg[a.caller].grants THEN TokErr("unauthorized_client")
+  ELSE tokens
+
+DecideJWTBearer(a) ==
+  IF a.iss \in Clients /\ Reg[a.iss].auth = "pkjwt" /\ a.key = "own"
+  THEN LET sc == Range(a.scopes) \cap {"openid", "api"} IN
+       [NoOut EXCEPT !.class = "tokens", !.status = 200,
+                     !.at = [name |-> N("a", cnt.a + 1), kind |-> "opaque", client |-> a.iss, sub |-> a.iss,
+                             scopes |-> SetToSeq(sc), aud |-> <<IssuerURL>>],
+                     !.scope = SetToSeq(sc)]
+  ELSE IF cfg.router = "P" THEN TokErr("server_error") ELSE Err(400, "invalid_request")
+
+DecideTokenExchange(a) ==
+  LET authP == a.cred.kind = "basic" /\ SecretOK(a.caller, a.cred)
+      authL == TokenClientAuth(a.caller, a.cred)
+      granted == a.caller \in Clients /\ "te" \in Reg[a.caller].grants
+      eff == IF a.requested = "" THEN cfg.policy.defType ELSE a.requested
+      hasActor == a.actor.kind # "none"
+      typesOK == a.subj.declared # "unknown" /\ a.requested # "unknown" /\ (hasActor => a.actor.declared # "unknown")
+      sub == IF cfg.policy.imp # "" THEN cfg.policy.imp ELSE SubOfRef(a.subj)
+      sc == Range(a.scopes) \ {cfg.policy.drop}
+      body ==
+        IF ~LiveRef(a.subj) THEN TokErr("invalid_request")
+        ELSE IF hasActor /\ ~LiveRef(a.actor) THEN TokErr("invalid_request")
+        ELSE IF cfg.policy.deny THEN TokErr("access_denied")
+        ELSE IF eff \in {"access", "refresh"}
+             THEN [NoOut EXCEPT !.class = "tokens", !.status = 200, !.issuedType = eff,
+                                !.at = NewAT(a.caller, sub, sc, {}),
+                                !.rt = IF eff = "refresh" THEN NewRT(a.caller, sub, sc, {}, "t", "new") ELSE NoRt,
+                                !.scope = SetToSeq(sc), !.actor = IF hasActor THEN SubOfRef(a.actor) ELSE "none"]
+        ELSE IF eff = "id"
+             THEN [NoOut EXCEPT !.class = "tokens", !.status = 200, !.issuedType = eff,
+                                !.idt = NewIDT(a.caller, sub, ""), !.scope = SetToSeq(sc),
+                                !.actor = IF hasActor THEN SubOfRef(a.actor) ELSE "none"]
+        ELSE TokErr("invalid_request") IN
+  IF cfg.router = "P" THEN
+    IF ~cfg.te THEN TokErr("unsupported_grant_type")
+    ELSE IF ~authP THEN TokErr("invalid_client")
+    ELSE IF ~granted THEN TokErr("unauthorized_client")
+    ELSE IF ~typesOK THEN TokErr("invalid_request")
+    ELSE body
+  ELSE
+    IF authL = "assertion_failed" THEN TokErr("server_error")
+    ELSE IF authL # "ok" THEN TokErr(authL)
+    ELSE IF ~granted THEN TokErr("unauthorized_client")
+    ELSE IF ~typesOK THEN TokErr("invalid_request")
+    ELSE IF ~cfg.te THEN TokErr("unsupported_grant_type")
+    ELSE body
+
+-----------------------------------------------------------------------------
 Decide(op, a) ==
   CASE op = "Authorize"    -> DecideAuthorize(a)
     [] op = "Callback"     -> DecideCallback(a)
@@ -304,6 +373,9 @@ Decide(op, a) ==
     [] op = "DeviceAuthorize" -> DecideDeviceAuthorize(a)
     [] op = "Poll"         -> DecidePoll(a)
     [] op = "EndSession"   -> DecideEndSession(a)
+    [] op = "ClientCreds"  -> DecideClientCreds(a)
+    [] op = "JWTBearer"    -> DecideJWTBearer(a)
+    [] op = "TokenExchange" -> DecideTokenExchange(a)
     [] op = "Login"        -> [NoOut EXCEPT !.class = IF Usable(a.req) THEN "ok" ELSE "noop"]
     [] op \in {"Approve", "Deny", "ExpireDevice"} -> [NoOut EXCEPT !.class = IF Has(devs, a.dc) THEN "ok" ELSE "noop"]
     [] OTHER               -> [NoOut EXCEPT !.class = "ok"]
@@ -370,6 +442,35 @@ EndSessionArgs ==
   LET hints == {[kind |-> "none", id |-> "none"]} \cup [kind : {"valid", "expired", "wrongkey", "wrongiss", "algnone"}, id : DOMAIN idts] IN
   [hint : hints, client : {"", "cw", "cx", "cz"}, uri : {"", "plcw", "plcx", "evil"}, state : {"", "ls1"}]
 
+RefArgs ==
+  LET none == [kind |-> "none", form |-> "none", id |-> "none", declared |-> "none"]
+      ats == {[kind |-> "access", form |-> f, id |-> t, declared |-> d] : f \in (IF Narrow THEN TokForms ELSE {"issued", "flipBody"}),
+                                                                          t \in DOMAIN toks \cup {"a0"}, d \in {"access"}}
+             \cup {[kind |-> "access", form |-> "issued", id |-> t, declared |-> d] : t \in DOMAIN toks, d \in {"refresh", "id", "jwt", "unknown"}}
+      fs  == {[kind |-> "refresh", form |-> "issued", id |-> f, declared |-> d] : f \in DOMAIN rts \cup {"f0"}, d \in {"refresh", "access"}}
+      is  == {[kind |-> "id", form |-> f, id |-> i, declared |-> "id"] : f \in {"valid", "expired", "wrongkey", "wrongiss", "algnone"}, i \in DOMAIN idts} IN
+  [none |-> none, refs |-> ats \cup fs \cup is]
+
+TokenExchangeArgs ==
+  LET R == RefArgs
+      reqs_ == {"", "access", "refresh", "id", "jwt", "unknown"}
+      scs == {<<"openid">>, <<"openid", "email">>}
+      right(sr) == [caller |-> "cw", cred |-> RightCred("cw"), subj |-> sr, actor |-> R.none, requested |-> "access", scopes |-> <<"openid", "email">>] IN
+  IF Narrow
+  THEN LET good == {r \in R.refs : LiveRef(r)}
+           sr == IF good = {} THEN [kind |-> "access", form |-> "garbage", id |-> "a0", declared |-> "access"] ELSE CHOOSE r \in good : TRUE IN
+       Deviations(right(sr), [caller |-> Callers, cred |-> Creds, subj |-> R.refs, actor |-> R.refs, requested |-> reqs_, scopes |-> scs])
+            \cup Deviations([right(sr) EXCEPT !.requested = "id"], [actor |-> good, subj |-> good])
+            \cup Deviations([right(sr) EXCEPT !.requested = "refresh"], [actor |-> good, subj |-> good])
+            \cup Deviations([right(sr) EXCEPT !.requested = ""], [actor |-> good, subj |-> good])
+  ELSE [caller : {"cw", "cx", "cz"}, cred : {RightCred("cw"), [kind |-> "basic", secret |-> "wrong", key |-> "none"]},
+        subj : {r \in R.refs : r.form \in {"issued", "valid", "expired", "flipBody"}},
+        actor : {R.none} \cup {r \in R.refs : r.form \in {"issued", "valid"} /\ r.declared = r.kind /\ r.id \notin {"a0", "f0"}},
+        requested : {"", "access", "refresh", "id", "jwt"}, scopes : {<<"openid", "email">>}]
+
+ClientCredsArgs == {[caller |-> cc[1], cred |-> cc[2], scopes |-> s] : cc \in CallerCreds \cup ({"cs"} \X Creds), s \in {<<"api">>, <<>>}}
+JWTBearerArgs == [iss : Callers, key : {"own", "foreign"}, scopes : {<<"openid">>, <<"openid", "email", "api">>}]
+
 -----------------------------------------------------------------------------
 Bump(o) ==
   cnt' = [cnt EXCEPT !.r = IF o.class = "login" THEN @ + 1 ELSE @,
@@ -377,7 +478,8 @@ Bump(o) ==
                      !.a = IF o.at.name # "none" THEN @ + 1 ELSE @,
                      !.f = IF o.rt.name # "none" THEN @ + 1 ELSE @,
                      !.i = IF o.idt.name # "none" THEN @ + 1 ELSE @,
-                     !.d = IF o.dc # "none" THEN @ + 1 ELSE @]
+                     !.d = IF o.dc # "none" THEN @ + 1 ELSE @,
+                     !.n = @ + 1]
 
 Event(op, a) == [op |-> op, args |-> a, out |-> Decide(op, a)]
 
@@ -403,15 +505,39 @@ StepsOf(op) ==   \* the events of operation op enabled in the current state
     [] op = "Deny" -> {Event(op, [dc |-> d, user |-> "u1"]) : d \in {x \in DOMAIN devs : devs[x].status = "pending"}}
     [] op = "ExpireDevice" -> {Event(op, [dc |-> d, user |-> "u1"]) : d \in {x \in DOMAIN devs : ~devs[x].expired}}
     [] op = "Poll" -> IF cnt.a < MaxAT THEN {Event(op, a) : a \in PollArgs} ELSE {}
+    [] op = "ClientCreds" -> IF cnt.a < MaxAT THEN {Event(op, a) : a \in ClientCredsArgs} ELSE {}
+    [] op = "JWTBearer" -> IF cnt.a < MaxAT THEN {Event(op, a) : a \in JWTBearerArgs} ELSE {}
+    [] op = "TokenExchange" -> IF cnt.a < MaxAT /\ cnt.i < MaxAT THEN {Event(op, a) : a \in TokenExchangeArgs} ELSE {}
     [] OTHER -> {}
 
 Steps == UNION {StepsOf(op) : op \in Ops}
 
-Init ==
-  /\ Init0
-  /\ cfg \in [router : Routers, post : BOOLEAN, pkjwt : {TRUE}, refresh : BOOLEAN]
+SeedToks == ("a1" :> [client |-> "cw", sub |-> "u1", scopes |-> {"openid", "email", "offline_access"}, aud |-> {"cw"}, kind |-> "opaque", dead |-> FALSE])
+         @@ ("a2" :> [client |-> "cx", sub |-> "u2", scopes |-> {"openid"}, aud |-> {"cx"}, kind |-> "jwt", dead |-> FALSE])
+SeedRts  == ("f1" :> [client |-> "cw", sub |-> "u1", scopes |-> {"openid", "email", "offline_access"}, aud |-> {"cw"}, auth |-> "t", root |-> "f1", live |-> TRUE])
+SeedIdts == ("i1" :> [client |-> "cw", sub |-> "u1", dead |-> FALSE]) @@ ("i2" :> [client |-> "cx", sub |-> "u2", dead |-> FALSE])
 
-Next == \E e \in Steps : Do(e)
+Init ==
+  /\ IF Seeded
+     THEN /\ reqs = ("r1" :> [client |-> "cw", uri |-> "ucw", rtype |-> "code", rmode |-> "", scopes |-> {"openid", "offline_access"},
+                              state |-> "st1", nonce |-> "n1", chall |-> "none", done |-> TRUE, sub |-> "u1", used |-> FALSE])
+          /\ codes = ("k1" :> "r1") /\ redeemed = {} /\ viol = {}
+          /\ devs = ("d1" :> [client |-> "cx", scopes |-> {"openid"}, uc |-> "uc-d1", status |-> "done", sub |-> "u1", expired |-> FALSE])
+                  @@ ("d2" :> [client |-> "cp", scopes |-> {"openid"}, uc |-> "uc-d2", status |-> "pending", sub |-> "none", expired |-> FALSE])
+          /\ toks = SeedToks /\ rts = SeedRts /\ idts = SeedIdts
+          /\ cnt = [r |-> 1, k |-> 1, a |-> 2, f |-> 1, i |-> 2, d |-> 2, n |-> 0]
+     ELSE Init0
+  /\ cfg \in [router : Routers,
+              post : IF "post" \in Vary THEN BOOLEAN ELSE {TRUE}, pkjwt : {TRUE},
+              refresh : IF "refresh" \in Vary THEN BOOLEAN ELSE {TRUE},
+              cc : IF "caps" \in Vary THEN BOOLEAN ELSE {TRUE},
+              te : IF "caps" \in Vary THEN BOOLEAN ELSE {TRUE},
+              dev : IF "caps" \in Vary THEN BOOLEAN ELSE {TRUE},
+              policy : IF "policy" \in Vary
+                       THEN [deny : BOOLEAN, defType : {"", "refresh"}, imp : {"", "u2"}, drop : {"email"}]
+                       ELSE {[deny |-> FALSE, defType |-> "", imp |-> "", drop |-> ""]}]
+
+Next == cnt.n < MaxSteps /\ \E e \in Steps : Do(e)
 
 Spec == Init /\ [][Next]_vars
 
